@@ -34,3 +34,35 @@ package core
 //@   ensures[C07.check_clock] result1 == nil && unixNow == 0 ==> result0 == expiredAt(fact, clockSecs())
 //@   ensures[C07.check_error] (result1 != nil) <==> badExpires(fact)
 //@   ensures[C07.check_error_false] result1 != nil ==> !result0
+
+// Assumed contracts of the time package (dependency): parsing is a function of the text.
+//@ spec parseDuration(string) int64
+//@ spec parseRFC3339secs(string) int64
+//@ extern time.ParseDuration
+//@   ensures result1 == nil ==> result0 == parseDuration(s)
+//@   pure-effects
+//@ extern time.Parse
+//@   ensures result1 == nil ==> floordiv(nanos(result0), 1000000000) == parseRFC3339secs(value)
+//@   pure-effects
+
+//@ func setExpires
+//@   requires fact != nil
+//@   ensures[C07.set_none]         !old(has(fact,"ttl")) && !old(has(fact,"expires")) ==> !result0 && result1 == 0 && result2 == nil
+//@   ensures[C07.set_ttl_removed]  result2 == nil ==> !has(fact,"ttl")
+//@   ensures[C07.set_ttl_float]    result2 == nil && old(has(fact,"ttl")) && old(is(fact["ttl"], float64)) ==>
+//@     | result0 && result1 == clockSecs() + trunc(old(fact["ttl"]).(float64))
+//@   ensures[C07.set_ttl_int64]    result2 == nil && old(has(fact,"ttl")) && old(is(fact["ttl"], int64)) ==>
+//@     | result0 && result1 == clockSecs() + old(fact["ttl"]).(int64)
+//@   ensures[C07.set_ttl_string]   result2 == nil && old(has(fact,"ttl")) && old(is(fact["ttl"], string)) ==>
+//@     | result0 && result1 == floordiv(clock() + parseDuration(old(fact["ttl"]).(string)), 1000000000)
+//@   ensures[C07.set_ttl_badtype]  old(has(fact,"ttl")) && !old(is(fact["ttl"], float64)) && !old(is(fact["ttl"], int64)) && !old(is(fact["ttl"], string)) ==> result2 != nil
+//@   ensures[C07.set_exp_float]    result2 == nil && !old(has(fact,"ttl")) && old(has(fact,"expires")) && old(is(fact["expires"], float64)) ==>
+//@     | result0 && result1 == trunc(old(fact["expires"]).(float64))
+//@   ensures[C07.set_exp_int64]    result2 == nil && !old(has(fact,"ttl")) && old(has(fact,"expires")) && old(is(fact["expires"], int64)) ==>
+//@     | result0 && result1 == old(fact["expires"]).(int64)
+//@   ensures[C07.set_exp_string]   result2 == nil && !old(has(fact,"ttl")) && old(has(fact,"expires")) && old(is(fact["expires"], string)) ==>
+//@     | result0 && result1 == parseRFC3339secs(old(fact["expires"]).(string))
+//@   ensures[C07.set_exp_badtype]  !old(has(fact,"ttl")) && old(has(fact,"expires")) && !old(is(fact["expires"], float64)) && !old(is(fact["expires"], int64)) && !old(is(fact["expires"], string)) ==> result2 != nil
+//@   ensures[C07.set_stored]       result2 == nil && result0 ==> expiresOf(fact) == result1 && !badExpires(fact)
+//@   ensures[C07.set_stored_none]  result2 == nil && !result0 ==> !has(fact,"expires")
+//@   ensures[C07.set_rule_copy]    result2 == nil && result0 && has(fact,"rule") ==> is(fact["rule"], map[string]interface{}) && expiresOf(fact["rule"].(map[string]interface{})) == result1
